@@ -11,6 +11,7 @@ real engine issues is checked to be engine-admissible.
 from __future__ import annotations
 
 import bundler_props as P
+import re_probes as RP
 
 MANIFEST = {
     "text": "FULL for engine-admissible histories (every rewind issued with an uncleared checkpoint copy and without losing a "
@@ -39,7 +40,9 @@ extract = P.extract
 
 
 def run(ctx, model=True):
-    return P.run(ctx, "C05", "C05", 1100, 25000, model=model, rule=RULE)
+    res = P.run(ctx, "C05", "C05", 1100, 25000, model=model, rule=RULE)
+    RP.add_to(res, ["classic-flyer", "nonrewindable-region"])
+    return res
 
 
 def run_impl_only(ctx):
@@ -47,4 +50,7 @@ def run_impl_only(ctx):
 
 
 def replay(ctx, data):
+    r = RP.replay(data)
+    if r is not None:
+        return r
     return P.replay(ctx, "C05", data)
